@@ -437,7 +437,7 @@ def _mol_strategy():
     at = ga.atom(nmin=4, nmax=6, small=True, routes=["const", "list", "sizes", "pruned-d"], allow_tiny=False, min_gap=0.1)
     return st.fixed_dictionaries(
         {
-            "atoms": st.lists(at, min_size=1, max_size=3),
+            "atoms": st.one_of(st.lists(at, min_size=1, max_size=1), st.lists(at, min_size=2, max_size=2), st.lists(at, min_size=3, max_size=3), st.lists(at, min_size=2, max_size=3)),
             "centres": st.lists(st.lists(st.floats(-3.0, 3.0), min_size=3, max_size=3), min_size=3, max_size=3),
             "aim": st.sampled_from(["array", "array", "becke"]),
             "store": st.just(True),
